@@ -121,7 +121,7 @@ fn generate_endpoint(
     let result = ctx.result_ident(def.service_name());
     let ret = return_type(ctx, endpoint);
     let ret_name = return_type_name(ctx, def, &ret);
-    let where_ = where_(ctx, style, body_arg);
+    let where_ = where_(ctx, def, style, body_arg);
 
     let request = quote!(request_);
     let setup_request = setup_request(ctx, body_arg, style, &request);
@@ -181,12 +181,19 @@ fn params(ctx: &Context, body_arg: Option<&ArgumentDefinition>) -> TokenStream {
     }
 }
 
-fn where_(ctx: &Context, style: Style, body_arg: Option<&ArgumentDefinition>) -> TokenStream {
+fn where_(
+    ctx: &Context,
+    def: &ServiceDefinition,
+    style: Style,
+    body_arg: Option<&ArgumentDefinition>,
+) -> TokenStream {
     match body_arg {
         Some(a) if ctx.is_binary(a.type_()) => {
             let bound = match style {
                 Style::Async => {
-                    quote!(conjure_http::client::AsyncWriteBody<T::BodyWriter> + Sync + Send)
+                    let sync = ctx.sync_ident(def.service_name());
+                    let send = ctx.send_ident(def.service_name());
+                    quote!(conjure_http::client::AsyncWriteBody<T::BodyWriter> + #sync + #send)
                 }
                 Style::Sync => quote!(conjure_http::client::WriteBody<T::BodyWriter>),
             };
